@@ -96,6 +96,22 @@ theorem c40_put_refuses_entry (cfg : Cfg) (fs : FS) (n key : Bytes) (hn : ValidN
       (fsStep cfg fs (.put n key)).1.foreign = fs.foreign :=
   put_refuses_entry cfg fs n key hn he
 
+/-- **Two Puts of one name** (the sequential reading of the concurrent case — the exclusive create is
+one atomic system call, so two racing Puts behave as one of the two orders): whatever the directory
+held, if the first Put succeeds the second is refused with `ErrKeyExists`, changes nothing, and `Get`
+returns the first key. -/
+theorem c40_second_put_refused (cfg : Cfg) (fs : FS) (n k1 k2 : Bytes) (hn : ValidName cfg n)
+    (hok : (fsStep cfg fs (.put n k1)).2 = .ok) :
+    (fsStep cfg (fsStep cfg fs (.put n k1)).1 (.put n k2)).2 = .exists ∧
+    (fsStep cfg (fsStep cfg fs (.put n k1)).1 (.put n k2)).1.files = (fsStep cfg fs (.put n k1)).1.files ∧
+    (fsStep cfg (fsStep cfg fs (.put n k1)).1 (.get n)).2 = .key k1 := by
+  have he := entry_after_put cfg fs n k1 hn hok
+  obtain ⟨h1, h2, _⟩ := put_refuses_entry cfg (fsStep cfg fs (.put n k1)).1 n k2 hn (by rw [he]; rfl)
+  refine ⟨h1, h2, ?_⟩
+  simp only [fsStep, encodeName_eq n hn.1, FS.readFile, entry_touch, not_too_long cfg n hn, if_false]
+  simp only [fsStep, encodeName_eq n hn.1] at he
+  rw [he]
+
 /-- before the fix the two implementations disagreed on `Delete` of a missing key; the fixed model
 returns `noSuchKey` from both (regression anchor for the `fix:` commit) -/
 theorem c40_delete_missing_agree (cfg : Cfg) (n : Bytes) (h : ValidName cfg n) :
